@@ -17,7 +17,7 @@ well-formedness recognisers, Conforms, NotAltered), three uses of TLC:
 import copy, itertools, json, os, random, re, threading, concurrent.futures as cf
 from vlib import Infra, log, read_ndjson
 
-NMENU = 26
+NMENU = 31
 FUZZ_ITEMS = [1, 6, 7, 8, 10, 12, 13, 16, 20]
 
 
@@ -33,10 +33,10 @@ def schema_sets(ctx):
     pairs = list(itertools.combinations(range(1, NMENU + 1), 2))
     triples = list(itertools.combinations(range(1, NMENU + 1), 3))
     if ctx.quick():
-        pairs = rnd.sample(pairs, 36)
+        pairs = rnd.sample(pairs, 30)
         big = rnd.sample(triples, 6) + [tuple(sorted(rnd.sample(range(1, NMENU + 1), 8)))]
     else:
-        big = rnd.sample(triples, 150) + [tuple(sorted(rnd.sample(range(1, NMENU + 1), k))) for k in (5, 8, 12, 25)]
+        big = rnd.sample(triples, 150) + [tuple(sorted(rnd.sample(range(1, NMENU + 1), k))) for k in (5, 8, 12, NMENU)]
     return singles, pairs, big
 
 
@@ -135,7 +135,8 @@ def run(ctx):
     # 2. generator: schemas, trees, mutants, alphabets
     g = ctx.tlc("EncodingGen", "EncodingGen.cfg", workers=12, timeout=3000, heap="8g",
                 consts={"Sets": set_lit(exh + big), "MutMax": 1, "ExhMax": 2,
-                        "RandPer": 40 if ctx.quick() else 150, "Fuzz": "TRUE"},
+                        "RandPer": 40 if ctx.quick() else 150, "Fuzz": "TRUE",
+                        "MutAll": "FALSE" if ctx.quick() else "TRUE"},
                 extra=["-seed", str(ctx.seed)])
     vecs = sorted(os.path.join(g["dir"], f) for f in os.listdir(g["dir"]) if re.match(r"vec(_\d+)+\.ndjson$", f))
     fuzzspec = os.path.join(g["dir"], "fuzz.ndjson")
@@ -196,12 +197,12 @@ def run(ctx):
              "distinct = distinct (schema, tree) pairs generated by TLC whose tree has at least one data node",
         samples=samples, schemas=len(exh) + len(big), schemas_exhaustive=len(exh), trees=ntrees, replay_events=nreplay,
         fuzz_events=fst["events"], fuzz_fatal=fst["fatal"], class_string_maxlen=maxlen, random_inputs=nrand, exhaustive=True,
-        explanation="TLC explored every valid tree of every selected one- and two-item schema of the menu (thorough: all 26 + 325) on the spec (round trip, mutants), "
+        explanation="TLC explored every valid tree of every selected one- and two-item schema of the menu (thorough: all 31 + 465) on the spec (round trip, mutants), "
                     "generated them with single-point mutants of the three encodings; the real encoders/decoders were run on all of "
                     "them, on every class string up to the length bound in three contexts and on seeded random bytes; every outcome "
                     "was judged by EncodingTrace")
     return ctx.finish(cov, [
-        "schemas are subsets of a 26-item menu (EncodingSets.tla): built-in types without restrictions, one augmenting module, one level of identity derivation",
+        "schemas are subsets of a 31-item menu (EncodingSets.tla): built-in types without restrictions, one augmenting module, one level of identity derivation",
         "values are canonical lexical forms; accepted but non-canonical numeric lexemes, white space around XML values, wrong member-name prefixes, trailing content after the XML root and empty leaf-list nodes are not judged",
         "plain JSON = RFC 7951 with unqualified names, all integers as numbers, empty as null",
         "outputs are re-read with encoding/json (UseNumber) and encoding/xml before TLC compares them with the predicted document",
@@ -234,7 +235,7 @@ PROPS = {"C19": run}
 MANIFEST = {
  "C19": dict(text="Encoding.tla holds data trees over a schema and abstract JSON / RFC 7951 / XML documents with Enc*/Dec* operators written "
              "from RFC 7951 and the RFC 6020 XML mapping rules, token-level recognisers, Conforms and NotAltered. TLC checks on every valid tree "
-             "of every one- and two-item schema of a 26-item menu (all built-in types with 64-bit extremes, decimal64, empty, foreign identities, "
+             "of every one- and two-item schema of a 31-item menu (all built-in types with 64-bit extremes, decimal64, empty, foreign identities, "
              "strings needing escaping, both list orderings, nesting, an augment) that decode(encode(t)) = t for the three codecs and classifies "
              "every single-point mutant. TLC generates the schemas as YANG, the trees and the mutants; the harness runs the real encoders and "
              "decoders on them, on every token-class string to a length bound and on seeded random bytes (child processes, panic trap); "
